@@ -86,9 +86,15 @@ Proof.
       vb_transfer_pnft, vb_burn_pnft; np_chain.
 Qed.
 
+Lemma vb_outs_np e outs : vb_outs e outs <> Panic.
+Proof.
+  induction outs as [|[a cs] r IH]; cbn [vb_outs]; [discriminate|].
+  apply bind_np; [apply validate_addr_np|]. intros _ _. destruct (coins_valid cs); [exact IH | discriminate].
+Qed.
+
 Theorem vb_base_total : forall e m, vb_base e m <> Panic.
 Proof.
-  intros e m. destruct m as [am|dm|pm|f t amt|f t amt et|g r u ex|g r u]; cbn [vb_base].
+  intros e m. destruct m as [am|dm|pm|f t amt|f t amt et|g r u ex|g r u|f amt outs]; cbn [vb_base].
   - apply vb_aol_total.
   - apply vb_did_total.
   - apply vb_pnft_total.
@@ -98,6 +104,11 @@ Proof.
     destruct (bytes_eqb _ _); discriminate.
   - unfold err_invalid_address. destruct (e_unbech e g), (e_unbech e r); try discriminate.
     destruct (bytes_eqb _ _); [discriminate|]. destruct u; discriminate.
+  - destruct outs as [|o outs']; [discriminate|].
+    apply bind_np; [apply validate_addr_np|]. intros _ _.
+    destruct (negb (coins_valid amt)); [discriminate|].
+    apply bind_np; [apply vb_outs_np|]. intros _ _.
+    destruct (coins_eqb _ _); discriminate.
 Qed.
 
 Lemma vb_all_total e ms : vb_all e ms <> Panic.
@@ -151,7 +162,7 @@ Ltac solve_signer :=
 
 Theorem signers_after_validation : forall e m, vb_base e m = Ok tt -> exists l, signers_base e m = Ok l.
 Proof.
-  intros e m H. destruct m as [am|dm|pm|f t amt|f t amt et|g r u ex|g r u]; cbn [vb_base] in H.
+  intros e m H. destruct m as [am|dm|pm|f t amt|f t amt et|g r u ex|g r u|f amt outs]; cbn [vb_base] in H.
   - destruct am as [t d o|t mo d w o|t w o|t k v w o f]; cbn [vb_aol] in H; cbn [signers_base];
       unfold vb_create_topic, vb_add_writer, vb_delete_writer, vb_add_record in H; inv_binds H.
     + solve_signer.
@@ -168,6 +179,7 @@ Proof.
   - cbn [signers_base]. inv_binds H. solve_signer.
   - cbn [signers_base]. destruct (e_unbech e g) as [ga|] eqn:Eg; [|discriminate H]. solve_signer.
   - cbn [signers_base]. destruct (e_unbech e g) as [ga|] eqn:Eg; [|discriminate H]. solve_signer.
+  - cbn [signers_base]. destruct outs as [|o outs']; [discriminate H|]. inv_binds H. solve_signer.
 Qed.
 
 Theorem signers_msg_after_validation : forall e m, validate_basic e m = Ok tt -> exists l, signers e m = Ok l.
@@ -355,7 +367,7 @@ Qed.
 (** * every handler *)
 Theorem exec_base_total : forall e c m, env_ok e -> vb_base e m = Ok tt -> exec_base e c m <> Panic.
 Proof.
-  intros e c m He H. destruct m as [am|dm|pm|f t amt|f t amt et|g r u ex|g r u]; cbn [vb_base] in H; cbn [exec_base].
+  intros e c m He H. destruct m as [am|dm|pm|f t amt|f t amt et|g r u ex|g r u|f amt outs]; cbn [vb_base] in H; cbn [exec_base].
   - apply exec_aol_total; assumption.
   - apply exec_did_total; assumption.
   - apply exec_pnft_total.
@@ -368,6 +380,9 @@ Proof.
     destruct (match ex with Some t => _ | None => false end); discriminate.
   - unfold err_invalid_address. destruct (e_unbech e g), (e_unbech e r); try discriminate.
     destruct (find_grant _ _ _ _); discriminate.
+  - unfold err_invalid_address. destruct (e_unbech e f); [|discriminate].
+    destruct (unbech_outs _ _); [|discriminate]. destruct (existsb _ _); [discriminate|].
+    destruct (multi_send _ _ _ _ _); discriminate.
 Qed.
 
 (** * authz dispatch over the inner messages of MsgExec *)
